@@ -31,6 +31,8 @@ struct HRec {
 	uint64_t level = 0;
 	uint64_t agg_time = 0, pub_time = 0; bool has_pub = false; // extending
 	std::vector<Attempt> att;
+	// a handle that extends a signature (KSI_AsyncExtendingHandle_new): source bytes, document hash, supplied publication record
+	bool sig_extend = false; std::string src_sig, src_hash; int pub_variant = 0; std::string pub_root;
 	bool abandoned = false;    // outstanding when the application freed the service
 	bool is_conf = false;      // a configuration request (no hash / times, no request id, no cache slot)
 	bool outstanding = false;  // accepted and not yet returned
@@ -105,6 +107,8 @@ private:
 	std::vector<ConfEvent> conf_events;
 	std::vector<uint64_t> dnsfail_seqs;
 	std::vector<uint64_t> known_times;         // aggregation times with rounds in the world (extending)
+	std::vector<std::string> known_sigs;       // the reference signatures of those rounds (with calendar chain), for signature-extending handles
+	std::vector<std::string> known_hashes;
 	uint64_t hash_counter = 0;
 	bool backward_jump = false;
 	bool faults_stopped = false;
